@@ -3,6 +3,7 @@ package worldp
 import (
 	"bytes"
 	"fmt"
+	"math"
 	"path"
 	"strings"
 	"time"
@@ -19,7 +20,8 @@ import (
 	"verifsim/worlda"
 )
 
-var c14Budgets = []int{-2, -1, 0, 1, 2, 3, 5}
+// (the last two are the extremes of the flag's type: drawn by random runs only)
+var c14Budgets = []int{-2, -1, 0, 1, 2, 3, 5, math.MinInt, math.MinInt + 1}
 
 // Per-attempt options: 0 = no interference; 1..7 retriable failure of seam call #(opt-1) of the
 // attempt; 8..14 permanent failure of call #(opt-8); 15..21 a concurrent writer commits a
@@ -104,6 +106,7 @@ func c14Plans(tier string) []core.Trace {
 const c14CancelModes = 9 // 7, 8: two version-control back ends (runC14Multi)
 
 type c14Script struct {
+	runaway    bool
 	cancelMode int
 	cancel     func()
 	cancelled  bool
@@ -147,6 +150,11 @@ func (s *c14Script) between(site string, ws int) {
 func (s *c14Script) decide(site string, ws int) seams.Decision {
 	p := s.pos
 	s.pos++
+	if s.attempt > 64 {
+		// far beyond any budget the check draws: stop the loop so that the run ends and reports it
+		s.runaway = true
+		return seams.Decision{Fail: true, Retriable: false}
+	}
 	switch {
 	case s.opt >= 1 && s.opt <= c14CallsPerAttempt && p == s.opt-1:
 		return seams.Decision{Fail: true, Retriable: true}
@@ -293,6 +301,9 @@ func runC14(r *core.Run) {
 	if allowed < 1 {
 		allowed = 1
 	}
+	if sc.runaway {
+		r.Fail("too-many-attempts", "unbounded", "budget %d: more than 64 attempts were started (the loop was stopped by a permanent failure injected at attempt 65)", budget)
+	}
 	if len(atts) > allowed {
 		r.Fail("too-many-attempts", "RetrySubmit", "%s: %d attempts were made, at most %d are allowed", where, len(atts), allowed)
 	}
@@ -432,6 +443,9 @@ func (b *c14Backend) between(site string, ws int) {
 func (b *c14Backend) decide(site string, ws int) seams.Decision {
 	p := b.pos
 	b.pos++
+	if b.attempts > 64 {
+		return seams.Decision{Fail: true, Retriable: false} // end a runaway loop; reported as too-many-attempts
+	}
 	if p != b.at {
 		return seams.Decision{}
 	}
